@@ -19,7 +19,10 @@ ASSUMPTIONS = ["the clock value handed to the writer is a valid datetime with ye
 
 NAME_POOL = ['a', 'b', 'Z', '0', ' ', '%', '\n', '\r', '=', '[', ']', '+', '#', '?', '~', '.', '-', '_', '\t', '\\',
              "'", '"', '*', '\xe9', '€', '\U0001F600', '\x7f', '\x01', '%41', '%2F', '..', '.trashinfo',
-             '\udc80', '\udcff\udcfe']
+             '\udc80', '\udcff\udcfe',
+             # not in Unicode normal form C: a decomposed accent, the Angstrom sign, a lone combining mark - names are byte strings to the
+             # file system, and the record must give the same bytes back
+             'e\u0301', '\u212b', 'n\u0303', '\u0301']
 
 
 def gen_name(rng):
